@@ -87,8 +87,14 @@ FileStyles(o, fmt, file) ==
 \* an extra key in the file: none | fresh (no such option) | dest (the attribute name, which is not a key)
 \*   | a one-letter key that coincides with a short command-line flag (only --long names are keys; explored with the
 \*     first option only, the option does not matter)
+\*   | abbrev: an unambiguous abbreviation of the option's own key (html-outpu): abbreviations are a command-line
+\*     convenience of argparse, as a KEY it is unknown and must not be applied
+\* twice: the same unknown key also stands in a second config file of the directory (all default files are read in
+\* one run, by one validator)
 Unknowns(o, i, cli) == {"none"} \cup (IF cli.has THEN {} ELSE {"fresh"} \cup (IF o.destkey THEN {"dest"} ELSE {})
+                                                            \cup (IF o.abbrev THEN {"abbrev"} ELSE {})
                                                             \cup (IF i = 1 THEN ShortKeys ELSE {}))
+Twice(unk) == IF unk = "none" THEN {FALSE} ELSE {FALSE, TRUE}
 
 \* where in the file the setting stands.  Every format recognises the sections tool.pydoctor, tool:pydoctor and
 \* pydoctor:  main = the format's usual one, alone ; alt = another recognised one, alone ;
@@ -101,17 +107,17 @@ NamePairs(o, file, cli) ==
 
 VARIABLES s
 vars == <<s>>
-Scenario(i, fmt, via, file, fstyle, cli, spell, unk, place, np) ==
+Scenario(i, fmt, via, file, fstyle, cli, spell, unk, place, np, tw) ==
   [opt |-> i, key |-> Options[i].key, kind |-> Options[i].kind, fmt |-> fmt, via |-> via, file |-> file,
-   fstyle |-> fstyle, cli |-> cli, spell |-> spell, unknown |-> unk, place |-> place, fname |-> np[1], cname |-> np[2]]
+   fstyle |-> fstyle, cli |-> cli, spell |-> spell, unknown |-> unk, place |-> place, fname |-> np[1], cname |-> np[2], twice |-> tw]
 
 Init == \E i \in 1..Len(Options), fmt \in Formats, via \in Vias :
           \E file \in FileChoices(Options[i]), cli \in CliChoices(Options[i]) :
             \E fstyle \in FileStyles(Options[i], fmt, file), spell \in Spellings(Options[i], cli),
                unk \in Unknowns(Options[i], i, cli) :
-              \E place \in Places(file, cli, unk), np \in NamePairs(Options[i], file, cli) :
+              \E place \in Places(file, cli, unk), np \in NamePairs(Options[i], file, cli), tw \in Twice(unk) :
                 /\ file.has \/ cli.has \/ unk # "none"
-                /\ s = Scenario(i, fmt, via, file, fstyle, cli, spell, unk, place, np)
+                /\ s = Scenario(i, fmt, via, file, fstyle, cli, spell, unk, place, np, tw)
 Next == UNCHANGED vars
 Spec == Init /\ [][Next]_vars
 
